@@ -101,6 +101,8 @@ def run(spec):
                     if all((x, y) not in reach and (y, x) not in reach for x in sub for y in sub if x != y))
     res["width"] = width
     bits = spec["bits"] + SANITY_BITS
+    # Safety first: a bad state reachable within K steps is a genuine counterexample whatever the completeness threshold turns out
+    # to be.  Only when safety is unsat at K does the unwinding query decide whether K covers every schedule (else K is bumped).
     for bump in range(spec.get("max_k_bumps", 3) + 1):
         try:
             b = BMC(enc)
@@ -112,12 +114,25 @@ def run(spec):
             res["detail"] = str(e)
             return res
         b.width = width
+        r, dt, m = b.query(b.bad_any(bits))
+        res["queries"].append({"q": "safety", "K": K, "bits": bits, "result": r, "solver_s": round(dt, 2)})
+        if r == "sat":
+            res["status"] = "counterexample"
+            res["K"] = K
+            res["bad"] = [n for n in BAD_BITS if z3.is_true(m.eval(b.final.bad[n], model_completion=True))]
+            res["trace"] = b.trace(m)
+            res["model"] = model_values(enc, m)
+            res["wall_s"] = round(time.time() - t0, 1)
+            return res
+        if r != "unsat":
+            res["status"] = "unknown"
+            return res
         r, dt, m = b.query(b.unfinished())
         res["queries"].append({"q": "unwinding", "K": K, "result": r, "solver_s": round(dt, 2)})
         if r == "unsat":
             break
         if r == "sat":
-            # either K too small or a genuine non-termination/livelock: keep the trace of the last attempt
+            # K too small (or a genuine non-termination / livelock): keep the trace of the last attempt and deepen
             res["unwinding_trace"] = b.trace(m)
             res["unwinding_model"] = model_values(enc, m)
             K += 4
@@ -126,16 +141,8 @@ def run(spec):
         return res
     else:
         res["status"] = "unwinding_failed"
+        res["detail"] = f"some schedule is still running after {K - 4} steps (and no bad state within them): non-termination, or the step bound is too small"
     res["K"] = K
-    r, dt, m = b.query(b.bad_any(bits))
-    res["queries"].append({"q": "safety", "K": K, "bits": bits, "result": r, "solver_s": round(dt, 2)})
-    if r == "sat":
-        res["status"] = "counterexample"
-        res["bad"] = [n for n in BAD_BITS if z3.is_true(m.eval(b.final.bad[n], model_completion=True))]
-        res["trace"] = b.trace(m)
-        res["model"] = model_values(enc, m)
-    elif r != "unsat":
-        res["status"] = "unknown"
     for wname in spec.get("witnesses", []):
         r, dt, m = b.query(witness_formula(b, wname))
         res["queries"].append({"q": "witness:" + wname, "K": K, "result": r, "solver_s": round(dt, 2)})
